@@ -216,12 +216,24 @@ def finish(ctx, res, meta):
     new = []
     kf = []
     seen_known = set()
+    site_entries = [k for k in known.get("findings", []) if k["property"] == pid and k.get("site")]
     for (rule, key, ok, detail, loc) in viol:
         full = "%s | %s" % (rule, key)
-        if full in known_keys:
-            if full not in seen_known:
-                kf.append((full, known_keys[full]))
-                seen_known.add(full)
+        hit = known_keys.get(full)
+        if hit is None:
+            # the same failing call site under another spelling of its operand (a refactor renamed / re-bound the value):
+            # rule + function + operation + the literal operand identify the site; anything else stays a new violation
+            for k in site_entries:
+                st = k["site"]
+                if rule == st["rule"] and key.startswith(st["function"] + " | " + st["op"] + "(") and key.endswith(", " + st["literal"] + ")") \
+                        and key.count(" | ") == 1:
+                    hit = k
+                    break
+        if hit is not None:
+            kk = hit["key"]
+            if kk not in seen_known:
+                kf.append((kk, hit))
+                seen_known.add(kk)
         else:
             new.append((rule, key, detail, loc))
     global LAST_RC
